@@ -693,9 +693,56 @@ def check_palette(ctx: Ctx, entries, colors, bright, order):
     scr.stop()
 
 
+def check_two_screens(ctx: Ctx, colors, bright):
+    """two screen objects with different palettes in one process: each resolves a name through its own palette, whatever the other one
+    registered, in whichever order they were created, registered and had their terminal properties set"""
+    for order in ("A-registers-first", "B-registers-first"):
+        ctx.count("evaluations")
+        case = {"part": 3, "two_screens": True, "colors": colors, "bright_is_bold": bright, "order": order}
+        sa, oa = make_screen(16, bright)
+        sb, ob = make_screen(16, bright)
+        ea = [("alert", "light red", "dark blue", "bold", "#f00", "#00f"), ("both", "yellow", "black", None, "#ff0", "g19")]
+        eb = [("body", "light green", "default", None, "#0f0", "default"), ("both", "white", "dark red", "underline", "#fff", "#800")]
+        for scr, ents in ((sa, ea), (sb, eb)) if order.startswith("A") else ((sb, eb), (sa, ea)):
+            for e in ents:
+                scr.register_palette_entry(*e)
+        # only now the depth changes: the escape tables are rebuilt from each screen's palette
+        sb.set_terminal_properties(colors=colors, bright_is_bold=bright)
+        sa.set_terminal_properties(colors=colors, bright_is_bold=bright)
+        for who, scr, out, mine, theirs in (("A", sa, oa, ea, eb), ("B", sb, ob, eb, ea)):
+            scr.start()
+            out.take()
+            own = {e[0]: e for e in mine}
+            for name in ("alert", "body", "both"):
+                term = Term(4, 1)
+                try:
+                    scr.clear()
+                    scr.draw_screen((4, 1), TextCanvas([b"ab  "], [[(name, 2), (None, 2)]], maxcol=4))
+                except Exception as e:
+                    ctx.violation("draw-raises", f"C17/draw-raises/two-screens/{exc_site(e)}", dict(case, screen=who, name=name), repr(e))
+                    continue
+                term.feed(out.take())
+                glyph, fg, bg, flags = term.g[0][0]
+                if name in own:
+                    fgd, bgd, depth = want_for(own[name], colors)
+                    spec = AttrSpec(fgd, bgd, depth)
+                else:
+                    spec = AttrSpec("default", "default")
+                fgs, ebg, eflags = rendition(spec, bright)
+                if fg not in fgs or bg != ebg or flags != eflags:
+                    ctx.violation("sgr-decodes" if name in own else "undefined-default", f"C17/sgr-decodes/two-screens/{'own' if name in own else 'other-screens-name'}/depth{colors}", dict(case, screen=who, name=name),
+                                  f"screen {who} draws {name!r} ({'its own entry' if name in own else 'registered on the other screen only'}) as fg={fg} bg={bg} flags={sorted(flags)}; expected fg in {sorted(map(str, fgs))} bg={ebg} flags={sorted(eflags)}")
+                else:
+                    ctx.distinct("nontrivial", (3, "two", colors, bright, order, who, name))
+            scr.stop()
+
+
 def palette_task(task, ctx: Ctx):
     colors, bright, order, lo, hi, tier = task
     env.reset("utf-8")
+    if order == "two-screens":
+        check_two_screens(ctx, colors, bright)
+        return
     ents = palette_entries(tier)[lo:hi]
     check_palette(ctx, ents, colors, bright, order)
 
@@ -730,6 +777,7 @@ def run(tier, R):
             for order in ("props-first", "palette-first", "bright-later", "depth-later", "alias", "redefine"):
                 for lo in range(0, len(ents), 60):
                     t3.append((colors, bright, order, lo, lo + 60, tier))
+            t3.append((colors, bright, "two-screens", 0, 0, tier))
     R.run_tasks(palette_task, t3, recheck=0.03)
     ev = int(R.ctx.counts["evaluations"])
     n3 = ev - n1 - n2
